@@ -9,6 +9,7 @@ import (
 	"os"
 	"path"
 	"path/filepath"
+	"slices"
 	"strings"
 	"time"
 
@@ -47,10 +48,11 @@ func NewPermissions(name string) (Permissions, error) {
 
 func (p Permissions) Permissions(desc *Description) []string {
 	if p.name == "" {
-		return p.permissions
+		return slices.Clone(p.permissions)
 	}
 
-	perms := permissionsMap[p.name]
+	// copy the slice, the caller might modify it
+	perms := slices.Clone(permissionsMap[p.name])
 
 	op := false
 	present := false
